@@ -1459,6 +1459,11 @@ class MSgate(Channel):
         ancillae_val = backend.mb_squeeze_single_shot(*reg, r, phi, r_anc, eta_anc)
         return ancillae_val / s
 
+    def merge(self, other):
+        # Channel.merge multiplies the first parameters, which is how transmissivities compose;
+        # the first parameter of MSgate is a squeezing magnitude
+        raise MergeFailure("Measurement-based squeezing gates cannot be merged.")
+
 
 class PassiveChannel(Channel):
     r"""Perform an arbitrary multimode passive operation
@@ -2288,6 +2293,15 @@ class Fouriergate(Gate):
 
     def __init__(self):
         super().__init__([np.pi / 2])
+
+    def merge(self, other):
+        # the Fourier gate has no free parameter (it is always R(pi/2)), so two Fourier gates do
+        # not compose to a Fourier gate; only a gate and its inverse can be merged
+        if not self.__class__ == other.__class__:
+            raise MergeFailure("Not the same gate family.")
+        if self.dagger != other.dagger:
+            return None  # identity gate
+        raise MergeFailure("Two Fourier gates do not compose to a Fourier gate.")
 
     def _decompose(self, reg, **kwargs):
         # into a rotation
